@@ -26,6 +26,7 @@ import (
 	"strconv"
 	"strings"
 	"sync"
+	"sync/atomic"
 	"testing"
 	"time"
 
@@ -356,15 +357,15 @@ type runOutcome struct {
 	dir      string
 }
 
-var portCounter int
+var portCounter atomic.Int64
 
 func nextPort() int {
-	portCounter++
+	n := int(portCounter.Add(1))
 	shard := 0
 	if H != nil {
 		shard = H.Shard
 	}
-	return 21000 + (shard%64)*400 + portCounter%400
+	return 21000 + (shard%64)*400 + n%400
 }
 
 func runHistory(c *APICase) runOutcome {
@@ -451,7 +452,7 @@ func runHistory(c *APICase) runOutcome {
 					portMu.Unlock()
 					if p == 0 {
 						rec.Err = "not serving"
-					} else if resp, err := client.Get(fmt.Sprintf("http://127.0.0.1:%d/m0.js", p)); err != nil {
+					} else if resp, err := client.Get(fmt.Sprintf("http://127.0.0.1:%d/mem_m0.js", p)); err != nil {
 						rec.Err = err.Error()
 					} else {
 						rec.Body, _ = io.ReadAll(resp.Body)
